@@ -7,7 +7,8 @@ import base64, json, os, random, shutil, sys, time
 import posixpath
 import vlib, gen, static_pipeline as sp, map_pipeline as mp
 
-FILES = {"f1": "/w/app/one.js", "f2": "/w/lib/two.js"}
+# (a directory name with characters that mean something to String.prototype.replace: paths are data)
+FILES = {"f1": "/w/app/one.js", "f2": "/w/l$&ib $'x/two.js"}
 CFG = dict(sp.FULL_CFG, chainSourceMap=True)
 
 
@@ -20,6 +21,8 @@ def texts():
     # (rewritten files start with an 18-line prologue, so the line has to lie beyond it)
     t["plain"] = "function boom(a, b) {\n" + "  a;\n\n  b;\n" * 8 + "  throw new Error('plain');\n}\n"
     t["err"] = "function boom( {\n"
+    # an error message that continues on a line starting with "at"
+    t["atmsg"] = "function boom(a, b) {\n  const s = a + b;\n  throw new Error('boom ' + s + '\\nat home\\n    at all');\n}\n"
     # the throw site is on the very first line of the original
     t["oneline"] = "function boom(a, b) { const s = a + b; throw new Error('one ' + s); }\n"
     # the only link between the stack and the rewritten file is an eval origin: the function comes out of an eval
@@ -38,8 +41,8 @@ def texts():
 
 
 CLASSES = {"modA": "modified", "modB": "modified", "plain": "notmodified", "err": "error", "chain": "modified", "evalv": "modified",
-           "bomplain": "notmodified", "bommod": "modified", "oneline": "modified", "evalret": "modified"}
-THROW_LINE = {"modA": 5, "modB": 9, "plain": 26, "chain": 4 + 100, "evalv": 5, "bomplain": 26, "bommod": 5, "oneline": 1, "evalret": 5}
+           "bomplain": "notmodified", "bommod": "modified", "oneline": "modified", "evalret": "modified", "atmsg": "modified"}
+THROW_LINE = {"modA": 5, "modB": 9, "plain": 26, "chain": 4 + 100, "evalv": 5, "bomplain": 26, "bommod": 5, "oneline": 1, "evalret": 5, "atmsg": 3}
 
 
 def expected_lines(file):
